@@ -3,6 +3,9 @@
 
 use std::collections::HashMap;
 use std::hash::Hash;
+#[cfg(clock_bound_verif)]
+use crate::verif::mpsc;
+#[cfg(not(clock_bound_verif))]
 use std::sync::mpsc;
 
 /// Create a web of MPSC channels.
@@ -84,7 +87,14 @@ where
         }
     }
 
+    /// Return the channels in the DispatchBox, in an order chosen by the verification hooks.
+    #[cfg(clock_bound_verif)]
+    pub fn keys(&self) -> std::vec::IntoIter<&K> {
+        crate::verif::ordered_keys(self.channels.keys())
+    }
+
     /// Return the number of channels in the DispatchBox.
+    #[cfg(not(clock_bound_verif))]
     pub fn keys(&self) -> std::collections::hash_map::Keys<'_, K, mpsc::Sender<M>> {
         self.channels.keys()
     }
